@@ -37,8 +37,8 @@ def nontrivial(req, obs):
 
 SPEC = {
     "id": "C07",
-    "gens": ["HashSites", "EnumRange", "GlobalState", "Reserved"],
-    "lean_modules": ["RsslVerif.Thm.C07", "RsslVerif.Lemmas.EnumRange", "RsslVerif.Model.History", "RsslVerif.Thm.C02", "RsslVerif.Thm.C15"],
+    "gens": ["HashSites", "EnumRange", "GlobalState", "Reserved", "UsageTables"],
+    "lean_modules": ["RsslVerif.Thm.C07", "RsslVerif.Lemmas.EnumRange", "RsslVerif.Model.History", "RsslVerif.Model.MemoDfs", "RsslVerif.Thm.C02", "RsslVerif.Thm.C15"],
     "theorems": [T + n for n in [
         "sort_perm_invariant", "collectSort_perm_invariant", "sortBy_key_perm_invariant",
         "lookup_perm_invariant", "fold_perm_invariant", "firstFailure_ok_perm_invariant", "firstFailure_perm_invariant",
@@ -51,10 +51,17 @@ SPEC = {
         # history independence: no process-wide state (tie: Gen.GlobalState), and what that buys (Model/History.lean)
         "history_independent_of_stateless", "runSeq_eq_map_fresh", "history_independent_of_no_state",
         "real_reserved_set_history_independent", "once_lock_history_dependent",
-        "no_process_wide_state", "no_ambient_inputs", "global_state_scan_not_empty"]] + [
+        "no_process_wide_state", "no_ambient_inputs", "global_state_scan_not_empty",
+        # the usage fixpoint on CYCLIC tables: tie of the loop text, order independence for every well-formed table,
+        # a call cycle satisfying the hypotheses, and the seeded memoising DFS (Model/MemoDfs.lean) order dependent on one
+        "usage_recurse_shape_as_modelled", "usage_fixpoint_total_and_order_independent",
+        "usage_fixpoint_order_independent_on_cycle", "memo_dfs_order_dependent_on_cycle",
+        "memo_dfs_set_order_dependent_on_cycle"]] + [
         "RsslVerif.Lemmas.EnumRange.foldl_perm_of_invariant",
         # the two non-trivial sites are proved order independent over the models of the code itself
-        "RsslVerif.Thm.C02.closure_order_independent",      # usage-analysis fixpoint (recurse) vs key iteration order
+        "RsslVerif.Thm.C02.closure_order_independent",      # usage-analysis fixpoint (recurse) vs key iteration order;
+        # hypothesis WF only (no acyclicity): see usage_fixpoint_order_independent_on_cycle for a 2-cycle instance
+        "RsslVerif.Thm.C02.recurse_terminates", "RsslVerif.Thm.C02.close_is_reachability",
         "RsslVerif.Thm.C02.required_order_independent",     # required_globals collect + sort
         "RsslVerif.Thm.C15.build_scope_order_independent",  # NameMap::build vs scope-map and key-map iteration order
     ],
@@ -66,7 +73,13 @@ SPEC = {
             "Metal, 3 pipelines) x 4 targets, name-clash programs, programs whose functions share their name with a struct / enum / "
             "cbuffer of the same scope (accepted since fix 31dddea) x 4 targets, buffer addresses in 2-4 bind groups with tied inline "
             "descriptor slots x {vk, vkba}, plus the repository's own inputs under tests/ x {dx, msl}, each "
-            "compiled 5 times in one process and once in each of 3 fresh processes; rejected programs: 113 generated families "
+            "compiled 5 times in one process and once in each of 3 fresh processes; programs with CALL CYCLES (cycle:<seed>, 24 quick / "
+            "300 thorough + 6 corpus entries: 1-6 cycles of 1-4 mutually recursive functions through forward declarations, self "
+            "recursion, chords, calls between cycles, cycles in namespaces, every member with its own globals / resources directly "
+            "and through helper chains of depth 1-3, sometimes a helper chain of depth 9-24, static globals initialised by a call "
+            "of a helper or of a cycle member, 1-2 entry points) x 4 targets (Metal shows the closed usage sets as implicit "
+            "parameter lists and is_used; the HLSL targets are the control), each compiled 8 times in one process and once in each "
+            "of 3 fresh processes, a failure quotes the first differing emitted line and the program; rejected programs: 113 generated families "
             "with >= 3 interchangeable offenders each (lexer, preprocessor, parser, 99 of 109 TyperError variants incl. enum "
             "range / conflicts, overload ambiguity with candidate lists, redefinitions, and every rejection introduced by fix batch 2; "
             "layout check; pipeline errors; exporter "
@@ -89,7 +102,15 @@ SPEC = {
                   "independent as a whole, including the location and payload of its range error; the translator's inventory of "
                   "traversals of hash ordered containers (HashMap/HashSet and Vecs filled from them) in the current source is "
                   "proved to contain only reviewed sites WITH THE REVIEWED BODY (fingerprint per loop body), and a body that can "
-                  "leave early, builds a diagnostic or keeps a first value is never accepted as a commutative fold. History "
+                  "leave early, builds a diagnostic or keeps a first value is never accepted as a commutative fold. The usage "
+                  "fixpoint (GlobalUsageAnalysis::recurse, hash order of the keys and of every required set): the text of the "
+                  "loop in the current source is tied to the C02 transcription (usage_recurse_shape_as_modelled over the "
+                  "regenerated Gen.UsageTables.recurseShape), and that transcription is proved total and order independent for "
+                  "EVERY well-formed table - the hypothesis is `every mentioned symbol has an entry, sets duplicate free`, "
+                  "nothing excludes call cycles (usage_fixpoint_total_and_order_independent; "
+                  "usage_fixpoint_order_independent_on_cycle instantiates it on a 2-cycle and shows each member ends with "
+                  "the other member's global); the seeded single-pass memoising DFS is transcribed (Model/MemoDfs.lean) and "
+                  "proved to depend on the key order and on the set order on a table with a 2-cycle. History "
                   "independence: a process whose step never reads process-wide state gives every request, after any history "
                   "and in any permutation, its fresh-process result (proved for all step functions, Model/History.lean); the "
                   "regenerated inventory Gen.GlobalState proves the premise about the source: no `static` item at all, no "
@@ -109,7 +130,10 @@ SPEC = {
         "from a function or pushed into a field",
         "the classification of a site into a shape in Thm/C07.lean `classified` is a reviewed reading of the (fingerprinted) "
         "body, not a theorem about the Rust code, except for the transcribed ones: end_enum (Model/EnumRange, tie "
-        "end_enum_shape_as_modelled), the usage-analysis fixpoint and required_globals (C02 models), NameMap::build (C15 model)",
+        "end_enum_shape_as_modelled), the usage-analysis fixpoint (C02 model, tie usage_recurse_shape_as_modelled: five regular "
+        "expressions over the whitespace-normalised body of `recurse` in tools/gens/c02.py) and required_globals (C02 model), "
+        "NameMap::build (C15 model)",
+        "Model/MemoDfs.lean is a negative example (the seeded variant), fuelled with |table| + 1; nothing positive rests on it",
         "hypotheses of end_enum_order_independent are typer invariants read off the code: enum values are integer-like, value "
         "ids and names distinct, one symbol per enumerator name in the parent scope",
         "Rust's sort/sort_by return a sorted permutation; HashMap = finite map with unspecified iteration order",
